@@ -51,7 +51,9 @@ DOCS = [None, True, 0, 1.5, "s", [], {}, [1, "a", [2], {"a": 1}], {"a": [1, 2], 
         {"a": "ab", "l": [1, "a"], "b": 1}, [[["x"]], {"a": {"a": {"a": 1}}}], [0, False, "", None],
         # caller-supplied regular expressions that re refuses in different ways
         [{"a": "ab", "b": "("}, {"a": "ab", "b": "a{99999999999999999999}"}, {"a": "ab", "b": "\\"}, {"a": "ab", "b": "(?<=a+)b"},
-         {"a": "ab", "b": "\\1"}, {"a": "ab", "b": "(?P<n>a)(?P<n>b)"}, {"a": "ab", "b": "*"}, {"a": "ab", "b": "[z-a]"}]]
+         {"a": "ab", "b": "\\1"}, {"a": "ab", "b": "(?P<n>a)(?P<n>b)"}, {"a": "ab", "b": "*"}, {"a": "ab", "b": "[z-a]"}],
+        # JSON texts (a str argument is JSON text) of documents that are strings whose content looks like broken JSON text
+        '"{"', '"[1, 2"', '"[1]"']
 
 P_SIGMA = ["/", "~", "0", "1", "-", "+", "#", "\\", "u", "x", "a", "%", " ", "é"]
 BASES = ["", "/a", "/0/1", "/a/b/2", "/a/²", "/a/①/b", "/٣", "/a/1²"]
